@@ -40,7 +40,7 @@ FIELDS = ["pos", "vel", "atomid", "resid"]
 def op_strategy(draw):
     k = draw(st.sampled_from(["copy", "copy", "deep_copy", "view_res", "view_atom", "atoms_list", "move", "move_to",
                               "rotate", "set_pos", "set_vel", "set_ids", "set_resids", "rename", "atom_set",
-                              "iter_set", "share_pos", "same_array", "inplace", "inplace"]))
+                              "iter_set", "share_pos", "same_array", "inplace", "inplace", "read_center", "read_center"]))
     a = draw(st.integers(0, 30))
     b = draw(st.integers(0, 30))
     return [k, a, b, draw(gen.SEEDS), draw(st.sampled_from(FIELDS)), draw(st.booleans())]
@@ -402,6 +402,17 @@ def check(case):
                         model.cells[c]["pos"] = p.copy()
                     tainted.update(e.cells)
                     tainted.update(other.cells)
+            elif kind == "read_center" and e.kind in ("mol", "res"):
+                P = np.array([model.cells[c]["pos"] for c in e.cells])
+                com = P.mean(axis=0)
+                got = np.array(lib("center", lambda: o.geometric_center), float)
+                xyz = np.array([o.x, o.y, o.z], float)
+                dz = float(o.distance_to_zero)
+                dd = float(lib("distance", o.distance_to, np.zeros(3)))
+                if not (np.abs(got - com).max() <= 1e-9 and np.abs(xyz - com).max() <= 1e-9
+                        and abs(dz - np.linalg.norm(com)) <= 1e-9 and abs(dd - np.linalg.norm(com)) <= 1e-9):
+                    raise PropertyViolation("geometric-centre", "step %d: geometric centre of object %d is %r, the mean of "
+                                            "its coordinates is %r" % (step, ei, got.tolist(), com.tolist()))
             elif kind == "inplace":
                 # element-wise modification through a live view (atom.position[k] += d)
                 j = b % len(e.cells)
